@@ -30,6 +30,33 @@ NOTES = {   # what happened on the FIRST trial of a change, and what was strengt
     "C11-4": "round 2. The syncer promoting a pending node as Active although gossip holds it unreachable: C04 (routing status mirrors the membership flags) decides it; C11's monitor watches the gossip layer, where nothing changes.",
     "C18-3": "round 2. The same mechanism as C16-1 seen from C18 (a node shutting down keeps expiring-token upstreams): C16 decides it; C18's clusters run without authentication.",
     "C05-1": "C20: the regenerated lock-edge table no longer satisfies the lock-order proof (the translator half of the tie), and the stress harness shows the stale advertisement.",
+    "C01-5": "round 3. First trial: MISSED by C01 (the proxy clusters inject routing views directly). The syncer turning gossip keys into endpoint ids is C04's subject: its endpoint ids now include letters of the key prefix and the separator (e, nt:e, a:b), C04 reports it.",
+    "C01-6": "round 3. First trial: MISSED everywhere (no check ran Gossip.gossipRound). New peer-selection probe on the real gossipRound (C03, C11): 200 rounds must reach every live and every unreachable peer.",
+    "C02-5": "round 3. First trial: MISSED (deliveries called handlePacket directly). New receive-loop probe: all datagrams in flight to a node are read back to back by a real packetListener.Serve from a queue; state and replies must equal one-at-a-time delivery of the same datagrams (C02, C03), and the same histories run under the race detector (C20).",
+    "C02-6": "round 3. MISSED by C02 (its monitor is about key/value state); C11's stale-expiry rule reports it.",
+    "C03-5": "round 3. Same change as C02-5 seen from C03: receive-loop probe.",
+    "C03-6": "round 3. First trial: caught only as disagreement (packet bytes). New heartbeat probe: a digest exchange that completes without loss must tell both failure detectors, also when neither side has anything new.",
+    "C04-5": "round 3. First trial: MISSED (endpoint ids e, f, e1, E). Ids with ':' and with letters of 'endpoint:' added.",
+    "C04-6": "round 3. First trial: caught only as disagreement (pending nodes); monitor failures after an expiry were all attributed to finding F3. F3 is now recognised by its hole in the gossip view; rediscovery witness (learn, expire, owner changes and compacts, learn again) and expiry in a fifth of the random histories.",
+    "C05-6": "round 3. First trial: MISSED (ASCII endpoint ids). An id that is not UTF-8 (and has a colon) is now among the endpoint names of the upstream harness.",
+    "C06-5": "round 3. First trial: MISSED (every scripted upstream closed after one response and upstream sets never changed inside a cluster). Upstreams now speak keep-alive; clusters whose upstreams connect, disconnect, announce go-away or fail one dial BETWEEN requests run as one continuous cluster and are compared with the model phase by phase (corpus-dyn-reconnect, -twins, -goaway, -flaky + random).",
+    "C06-6": "round 3. First trial: MISSED (no go-away upstream in the proxy clusters). Scenario goaway: a forwarded request meets a go-away upstream - 502, never a second hop.",
+    "C07-5": "round 3. First trial: MISSED (writes of at most 256 KiB, exactly the new limit). Single writes of 262145, 300000 and 1 MiB in the ws corpus and the tunnel scenarios.",
+    "C07-6": "round 3. First trial: MISSED. Backpressure probe (reader pauses 1.5 s in the quick tier, 11 s in the thorough tier, 8/16 MiB outstanding): reported by the thorough tier only - it needs a 10 s stall.",
+    "C08-6": "round 3. MISSED: needs more concurrent in-flight requests through one agent than its idle-pool size; the proxy harness issues the requests of a cluster one after the other. Not covered (see DESIGN 9).",
+    "C10-5": "round 3. First trial: MISSED by C10 (its servers use a recording manager, no real upstream connections). The twins scenario of the proxy harness (endpoint ids t, t:80, T, t:) makes C01 report the wrong endpoint; C10 still does not see it.",
+    "C11-5": "round 3. First trial: caught only as disagreement. Rule left-not-learned (an observer that has caught up with a departed node holds it as left) + witness leave-then-compact + compaction after leave in the membership episodes.",
+    "C11-6": "round 3. First trial: MISSED by C11 (scripted detector), reported by C12. The real accrual detector now runs inside the real cluster state behind a virtual clock (silence, recovery, expiry): monitor rules from the property text + world-model comparison with the real verdicts; new theorems C11_silent_stays_unreachable / C11_heard_is_reachable / C12_silent_eventually_unreachable (Compose/LiveFD.v).",
+    "C12-6": "round 3. First trial: MISSED (C12 drove the detector alone, C11 scripted it). Same machinery as C11-6: restored-unheard.",
+    "C15-5": "round 3. Same change as C01-5 seen from C15 (stale remote entry keeps being selected): C04 reports it.",
+    "C15-6": "round 3. First trial: MISSED (C15 drives the manager, the removal is in the HTTP proxy). Scenario flaky (one failed dial of a connected upstream) + C01 rule local-available; C01 and C06 report it.",
+    "C16-5": "round 3. First trial: MISSED (every server shutdown had 3 s and nothing half-open). Straggler: a half-open connection on the upstream port and a 150-300 ms grace period.",
+    "C16-6": "round 3. First trial: MISSED (client listeners never lost the server). Front with blackout/restore in the lifecycle harness: listeners closed while the server is unreachable must not come back.",
+    "C17-6": "round 3. First trial: MISSED (at most 11 keys). Bulk histories (130-260 keys, deletes, compaction, join stream and datagram exchanges) in C02 and, with a sync monitor, in C17.",
+    "C18-6": "round 3. First trial: MISSED (in-flight requests of 200 ms). Scenario graceful-long-inflight (3 s requests through the departing node) + rule withdrawal-waits-for-drain.",
+    "C19-5": "round 3. Same parsing slip as C04-5 seen from C19 (under-counted remote connections): C04 reports it; C19's clusters inject the remote counts directly.",
+    "C19-6": "round 3. Same change as C02-6 seen from C19: C11 reports it.",
+    "C20-5": "round 3. First trial: MISSED (the stress run's loopback gossip rarely queues two datagrams). The receive-loop histories now also run in a race-detector build.",
 }
 
 
@@ -60,12 +87,18 @@ def main():
         needs = (au.get("needs") or au.get("summary") or "").replace("|", "/").replace("\n", " ")
         if len(needs) > 260:
             needs = needs[:257] + "..."
-        chk = "; ".join("%s: %s" % (c, outcome(r)) for c, r in (m.get("checks") or {}).items())
+        chk = "; ".join("%s: %s" % (c.replace(":thorough", " (thorough tier)"), outcome(r)) for c, r in (m.get("checks") or {}).items())
         out.append("| %s | %s | %s | %s |" % (name, needs, chk, NOTES.get(name, "")))
     n = len(rows)
     caught = sum(1 for _, m, _ in rows if any(r["exit"] != 0 for r in (m.get("checks") or {}).values()))
-    own = sum(1 for name, m, _ in rows if (m.get("checks") or {}).get(name.split("-")[0], {}).get("exit", 0) != 0)
-    withinput = sum(1 for name, m, _ in rows if outcome((m.get("checks") or {}).get(name.split("-")[0], {"exit": 0})) == "VIOLATION with failing input")
+    def own_res(name, m):
+        ch = m.get("checks") or {}
+        p0 = name.split("-")[0]
+        cand = [r for c, r in ch.items() if c.partition(":")[0] == p0]
+        bad = [r for r in cand if r["exit"] != 0]
+        return (bad or cand or [{"exit": 0}])[0]
+    own = sum(1 for name, m, _ in rows if own_res(name, m).get("exit", 0) != 0)
+    withinput = sum(1 for name, m, _ in rows if outcome(own_res(name, m)) == "VIOLATION with failing input")
     out += ["", "%d changes; %d reported by at least one check, %d by the check of the property they were written against "
                 "(%d of those with a concrete failing input found in the implementation)." % (n, caught, own, withinput)]
     open("/verif/seeded/RESULTS.md", "w").write("\n".join(out) + "\n")
